@@ -59,7 +59,7 @@ theorem tie_deleteReservation_calls : C17.deleteReservationCalls = ["GetReservat
 /-- `Reconcile`: job Get · stale-read guard · doMigrate · `assume(job)` as a PLAIN call after doMigrate with the object
     doMigrate wrote through (model: `recLag .afterWrite`; a `defer assume(job.DeepCopy())` ahead of doMigrate is
     `Policy.asRead`, refuted by assume_as_read_re_evicts_counterexample) -/
-theorem tie_reconcile_assume_after_write : C17.reconcileOrder = reconcileOrder := by decide
+theorem tie_reconcile_assume_after_write : KoordVerif.Generated.C17.reconcileOrder = reconcileCallOrder := by decide
 
 /-- `CreateOrUpdateReservationOptions`: exactly one assignment to `…AllocateOnce`, unconditional, the constant true
     (model: `writtenResv … .ao = some true` for every template) -/
